@@ -341,8 +341,7 @@ def check_thresh_bounds(chk, F):
     chk.sample({"thresh grid cells": cells})
 
 
-def check_script_accounting(chk, F):
-    rid = "R09.1s"
+def check_script_accounting(chk, F, rid="R09.1s"):
     chk.rule(rid, "ExtData::pk_cost is the length image of the encoder's template (= script_size), static_ops its "
                   "number of non-push opcodes, has_free_verify = `template ends in an opcode with a fused VERIFY form`")
     try:
@@ -352,9 +351,11 @@ def check_script_accounting(chk, F):
         chk.fail(rid, "anchor", "missing anchor %s" % e, kind="unanalysable")
         return
     where = F.fns[tcp]["span"]
-    for n in (3, 17):
+    for n in (3, 16, 17):
         for v in model.variants(F):
             if n != 3 and v not in NARY:
+                continue
+            if n == 16 and v == "Thresh":
                 continue
             try:
                 runs = []   # (encoder tokens, type_check results)
@@ -362,7 +363,7 @@ def check_script_accounting(chk, F):
                     cfgs = [dict(k=2, unc=None)]
                 elif v in NARY:
                     cfgs = [dict(k=kk, unc=unc) for unc in ((False, True) if v in ("Multi", "SortedMulti") else (False,))
-                            for kk in ((2, 17) if n > 16 else (2,))]
+                            for kk in ((2, 16, 17) if n > 16 else (2, 16) if n == 16 else (2,))]
                 else:
                     cfgs = [dict(k=None, unc=None)]
                 for cfg in cfgs:
